@@ -6,6 +6,9 @@ HERE = os.path.dirname(os.path.dirname(os.path.abspath(__file__)))
 
 # id -> (technique, level text, level note, design ref)
 CLAIMED = {
+ "C19": ("pairing/dominance rules over the relay closures (defers, channel capacity vs send sites, wait-before-return), start/finish pairing, check-before-blocking reachability over go/ssa",
+         "Decides the structural necessary conditions: two crossed io.Copy copiers that each defer Close of both connections and Done, an error channel that can hold every send, return only after Wait; every handler start is immediately followed by a deferred finish and the count has a single writer; the monitor loop evaluates its zero-handler exit condition on every path into the blocking select. Interleavings themselves are not decided.",
+         "go/types+go/ssa faithful; io.Copy forwards everything it read before returning", "DESIGN.md section 4, C19"),
  "C20": ("type lemma via types.Implements + closed allow-list information flow over the SSA of the scrubbers + taint-with-sanitisers at the log call sites",
          "Decides that with scrubbing on, whenever a net.Error is in the chain (which every address-carrying standard error type is, by types.Implements), the text ElideError returns is built only from constants, three allow-listed cause/operation fields, %T formatting, errno text and recursive scrubber calls; ElideAddr returns only constants and the port; with unsafe logging both return their input; every log call in package main prints only sanitised errors/addresses (named exemptions). The field allow-list is trusted: DNSError.Err text produced by the Go resolver may itself embed resolver addresses.",
          "go/types+go/ssa faithful; field table of checker/c20.go; syscall.Errno text is address-free", "DESIGN.md section 4, C20"),
